@@ -21,6 +21,7 @@ import (
 	"strings"
 	"sync"
 	"time"
+	"unicode/utf8"
 
 	"golang.org/x/telemetry/internal/telemetry"
 	"golang.org/x/telemetry/internal/verifref"
@@ -346,8 +347,42 @@ func compareProgs(got []*telemetry.ProgramReport, want []*verifref.ProgramData) 
 	return strings.Join(ds, "; ")
 }
 
-func diffMap(kind string, b verifref.Build, got, want map[string]int64) []string {
+// jsonText is how encoding/json renders s: every byte that is not part of a
+// valid UTF-8 sequence becomes one U+FFFD.
+func jsonText(s string) string {
+	if utf8.ValidString(s) {
+		return s
+	}
+	var b strings.Builder
+	for i := 0; i < len(s); {
+		r, n := utf8.DecodeRuneInString(s[i:])
+		if r == utf8.RuneError && n == 1 {
+			b.WriteRune(utf8.RuneError)
+		} else {
+			b.WriteString(s[i : i+n])
+		}
+		i += n
+	}
+	return b.String()
+}
+
+func validUTF8Only(m map[string]uint64) map[string]uint64 {
+	for k := range m {
+		if !utf8.ValidString(k) {
+			delete(m, k)
+		}
+	}
+	return m
+}
+
+func diffMap(kind string, b verifref.Build, got, want0 map[string]int64) []string {
 	var ds []string
+	// JSON renders bytes that are not valid UTF-8 as U+FFFD: that is how such a
+	// local name appears in a report
+	want := map[string]int64{}
+	for k, v := range want0 {
+		want[jsonText(k)] += v
+	}
 	for k, v := range want {
 		if g, ok := got[k]; !ok {
 			ds = append(ds, fmt.Sprintf("%s %q missing for %s@%s", kind, k, b.Program, b.Version))
